@@ -261,11 +261,65 @@ pub fn core_workload(seed: u64, n: u64) -> Digest {
     d
 }
 
+/// reader of a virtual file system that is sensitive to the exact path string: a path whose hash is even holds a
+/// minimal TZif file whose UTC offset encodes that hash, every other path is absent
+#[cfg(feature = "alloc")]
+fn path_sensitive_reader(path: &str) -> Result<alloc::vec::Vec<u8>, alloc::boxed::Box<dyn core::error::Error + Send + Sync + 'static>> {
+    let mut h = Digest::new();
+    h.b(path.as_bytes());
+    if h.0 % 2 == 1 {
+        return Err("No such file (virtual)".into());
+    }
+    let off = (h.0 % 80_000) as i32 - 40_000;
+    let mut f = alloc::vec::Vec::new();
+    for _ in 0..2 {
+        f.extend_from_slice(b"TZif2");
+        f.extend_from_slice(&[0u8; 15]);
+        for c in [0u32, 0, 0, 0, 1, 4] {
+            f.extend_from_slice(&c.to_be_bytes());
+        }
+        f.extend_from_slice(&off.to_be_bytes());
+        f.extend_from_slice(&[0, 0]);
+        f.extend_from_slice(b"FIL\0");
+    }
+    f.extend_from_slice(b"\n\n");
+    Ok(f)
+}
+
+/// TZ value resolution through settings with every shape of directory list and a path-sensitive reader: the
+/// zone obtained identifies the exact path that was read
+#[cfg(feature = "alloc")]
+fn resolution_workload(d: &mut Digest) {
+    use tz::TimeZoneSettings;
+    const DIRS: [&[&str]; 12] = [&[], &["/d1"], &["/d1", "/d2"], &["/d1/"], &["/d1//", "/d2/"], &[""], &["", "/d1"], &["rel"], &["rel/", "."], &["/"], &["..", "/d1/../d2"], &["/usr/share/zoneinfo", "/share/zoneinfo", "/etc/zoneinfo"]];
+    const VALUES: [&str; 30] = [
+        "x", "rel", "Europe/Paris", ":x", "::x", "/abs", "/abs/file", "localtime", ":localtime", "", " UTC0 ", "UTC0", "EST5EDT,M3.2.0,M11.1.0", "a/../b", "./rel", "rel/", "//x", ":", "\u{b}UTC0", "UTC0\u{a0}", "America/Argentina/Buenos_Aires", "UTC", "GMT0", ":/etc/localtime", "a", "ab", "abc", "abcd", ":Europe/Paris", "x/",
+    ];
+    for dirs in DIRS {
+        let settings = TimeZoneSettings::new(dirs, path_sensitive_reader);
+        for v in VALUES {
+            match settings.parse_posix_tz(v) {
+                Ok(z) => {
+                    d.i(z.as_ref().local_time_types().len() as i64);
+                    d.i(z.as_ref().local_time_types()[0].ut_offset() as i64);
+                    d.b(z.as_ref().local_time_types()[0].time_zone_designation().as_bytes());
+                }
+                Err(_) => d.i(-11),
+            }
+        }
+        match settings.parse_local() {
+            Ok(z) => d.i(z.as_ref().local_time_types()[0].ut_offset() as i64),
+            Err(_) => d.i(-12),
+        }
+    }
+}
+
 #[cfg(feature = "alloc")]
 pub fn alloc_workload(seed: u64, n: u64, files: &[&[u8]]) -> Digest {
     use alloc::string::ToString;
     use tz::{TimeZone, TimeZoneSettings};
     let mut d = Digest::new();
+    resolution_workload(&mut d);
     let mut r = Rng(seed ^ 0x55);
     let settings = TimeZoneSettings::new(&[], |_| Err("no files".into()));
     let strings = ["EST5EDT,M3.2.0,M11.1.0", "CET-1CEST,M3.5.0,M10.5.0/3", "<+0330>-3:30", "NZST-12NZDT,M9.5.0,M4.1.0/3", "EST5EDT", "garbage", "IST-1GMT0,M10.5.0,M3.5.0/1"];
